@@ -13,6 +13,10 @@ E1 (bounded exhaustive inputs, all against mc/ref_c13.py):
             element r(p) (7 symmetries, one-point deletions) and every class X, the completion chosen
             by the reference so that the verdict hinges on the pair: catches a per-call shortcut
             that derives the answer for one element from a related element of the same call.
+  scale     long basis elements (length 10..12, 33, 34, 257; thorough more) with every small descent
+            set over probe positions at the ends and at the 8- / 32-slot set-table boundaries, three
+            shapes x eight symmetries, each inside the reference's minimal completion for each of
+            the 18 classes, so that the verdict is exactly the membership of the long element.
   forms     the same basis in every further argument form (map, reversed, chain, dict views, deque,
             keyword argument), under every public name (PolyPerms.*, InsertionEncodablePerms.*),
             through every way of building Av (iterators, from_iterable, from_string 0/1-based),
@@ -884,6 +888,69 @@ def shard_fresh(shard):
 
 
 # --------------------------------------------------------------------------------------------
+# SCALE: long basis elements with a prescribed small descent set (runtime thresholds)
+# --------------------------------------------------------------------------------------------
+
+SCALE_FNS = {"poly": [("poly", "list"), ("nonpoly", "gen")],
+             "right": [("right", "list"), ("insenc", "tuple")],
+             "top": [("top", "list"), ("insenc", "gen")]}
+
+
+def scale_perms(n, D):
+    """The distinct permutations of the family for one (n, D): three construction rules x eight
+    symmetries (descents become ascents / positions become values), with the label of the first
+    construction that gives each."""
+    out = {}
+    for rule in F.RULES:
+        base = F.perm_with_descents(n, D, rule)
+        for s in R.SYMS:
+            out.setdefault(R.apply_sym(s, base), (rule, s))
+    return out
+
+
+def check_scale_case(part, n, D, rule, sym, kind, X, order, fn, cont):
+    p = R.apply_sym(sym, F.perm_with_descents(n, D, rule))
+    C = F.completion(kind, X, F.types_cached(p))
+    seq = ([p] + list(C)) if order == 0 else (list(C) + [p])
+    v = F.verdicts(seq)
+    got = call(fn, cont, [perm_obj(x) for x in seq])
+    exp = expected(fn, v)
+    if differs(got, exp):
+        part.violation("scale", {"n": n, "D": list(D), "rule": rule, "sym": sym, "kind": kind,
+                                 "class": X, "order": order, "fn": fn, "container": cont},
+                       {"long_element": p if n <= 40 else "(regenerate from n, D, rule, sym)",
+                        "descents_of_long_element": F.descent_set(p) if len(F.descent_set(p)) <= 12 else len(F.descent_set(p)),
+                        "completion": C, "long_element_in_class": bool(F.types_cached(p) & F.BIT[X]),
+                        "expected": exp, "got": got})
+
+
+def shard_scale(shard):
+    n, sets, avmax = shard
+    part = Partial()
+    for D in sets:
+        perms_ = scale_perms(n, D)
+        for p, (rule, sym) in perms_.items():
+            for kind in ("right", "top", "poly"):
+                for X in CONTEXTS[kind]:
+                    for order in (0, 1):
+                        for fn, cont in SCALE_FNS[kind]:
+                            check_scale_case(part, n, D, rule, sym, kind, X, order, fn, cont)
+                            part.add(1, 0)
+                    if n <= avmax:
+                        check_scale_case(part, n, D, rule, sym, kind, X, 0,
+                                         "av_poly" if kind == "poly" else "av_insenc", "list")
+                        part.add(1, 0)
+                    part.add(0, 1)
+        _PERM.clear()       # long Perm objects are not worth keeping
+    if sets:
+        D = sets[-1]
+        p, (rule, sym) = next(iter(scale_perms(n, D).items()))
+        part.sample({"sub": "scale", "n": n, "D": D, "rule": rule, "sym": sym,
+                     "classes_of_long_element": [c for c in F.CLASSES if F.types_cached(p) & F.BIT[c]]}, cap=1)
+    return part
+
+
+# --------------------------------------------------------------------------------------------
 # FORMS: every argument form and every public name of the same functionality
 # --------------------------------------------------------------------------------------------
 
@@ -1115,7 +1182,8 @@ def run(ctx, only=None):
                 "permutation; enum: bases whose finite verdict was confronted with at least one "
                 "non-empty and one empty level, or whose non-polynomial verdict was confronted with a "
                 "proper class; symmetry: bases moved by some symmetry; related: distinct (p, related element, "
-                "class) triples with |p| >= 3; histories: BFS states")
+                "class) triples with |p| >= 3; scale: distinct (long element, class) pairs; "
+                "histories: BFS states")
     ctx.assumptions = [
         "structure theorems as stated in mc/ref_c13.py (Erdos-Szekeres; ten minimal non-polynomial "
         "classes, Kaiser-Klazar/Huczynska-Vatter; Vatter's four classes for the insertion encoding)",
@@ -1215,6 +1283,30 @@ def run(ctx, only=None):
                              "0-based '_' and 1-based ':' spelling; %d runs of permuta.cli.main in a fresh "
                              "interpreter" % len(shards))
         ctx.section("cli", evaluations=ctx.evals - e0)
+    if want("scale"):
+        e0 = ctx.evals
+        plan = [(10, 4), (11, 4), (12, 4), (33, 4), (34, 4), (257, 2)] if quick else \
+               [(9, 4), (10, 4), (11, 4), (12, 4), (13, 4), (32, 4), (33, 4), (34, 4), (35, 4),
+                (256, 2), (257, 4), (258, 2)]
+        shards = []
+        nsets = {}
+        for n, maxsize in plan:
+            sets = F.scale_descent_sets(n, maxsize)
+            nsets[n] = len(sets)
+            per = 8 if n < 100 else 3
+            shards += [(n, sets[lo:hi], 13 if quick else 40) for lo, hi in chunk(len(sets), per)]
+        ctx.pmap(shard_scale, shards)
+        ctx.bounds["scale"] = {
+            "lengths (max |D|)": plan, "descent_sets_per_length": nsets,
+            "probe_positions": "{0,1,2,7,8,9,31,32,33,n-3,n-2} within 0..n-2; every subset of size 0..max; for "
+                               "n >= 33 also every 5..7-subset of {0,1,2,3,4,31,32}",
+            "elements": "3 construction rules (skew / riffle / lexmin) x 8 symmetries, distinct ones",
+            "classes": "each of the 4 rightmost, 4 topmost and 10 polynomial classes X with the reference's "
+                       "minimal completion: the verdict is True <=> the long element is in X",
+            "calls": "long element first / last; rightmost, maximum, is_insertion_encodable, is_polynomial, "
+                     "is_non_polynomial; Av methods for n <= %d" % (13 if quick else 40),
+            "reference": "linear-time class membership (cross-checked with the definition on S<=%d)" % (6 if quick else 7)}
+        ctx.section("scale", evaluations=ctx.evals - e0, lengths=[n for n, _ in plan])
     if want("forms"):
         e0 = ctx.evals
         nf = len(BASES) if not quick else 1 + sum(1 for b in BASES[1:6018] if len(b) <= 2)
@@ -1308,6 +1400,10 @@ def replay(ctx, rec):
     elif sub in ("bases", "pairs", "subsets", "av", "related", "forms"):
         seq = _tt(case["seq"])
         check_call(ctx, sub, case["fn"], case["container"], seq, F.verdicts(seq))
+    elif sub == "scale":
+        CONTEXTS = F.probe_contexts()
+        check_scale_case(ctx, case["n"], tuple(case["D"]), case["rule"], case["sym"], case["kind"],
+                         case["class"], case["order"], case["fn"], case["container"])
     elif sub == "abort":
         import signal
 
